@@ -194,6 +194,13 @@ func (in *Interp) renderTemplate(w *strings.Builder, t *Tmpl, f *frame) error {
 				if err := in.exec(&discard, s, f); err != nil {
 					return err
 				}
+			case If, For:
+				// a condition or a loop around assignments assigns too
+				if OnlyAssigns([]Stmt{s}) {
+					if err := in.exec(&discard, s, f); err != nil {
+						return err
+					}
+				}
 			}
 		}
 	}
@@ -474,6 +481,31 @@ func (in *Interp) callMacro(bm *boundMacro, args []Val, defFrame *frame) (Val, e
 		return nil, err
 	}
 	return b.String(), nil
+}
+
+// OnlyAssigns reports whether statements consist of text, set tags, and conditions and loops around such statements only.
+func OnlyAssigns(ss []Stmt) bool {
+	for _, s := range ss {
+		switch x := s.(type) {
+		case Text, Set:
+		case If:
+			for _, b := range x.Bodies {
+				if !OnlyAssigns(b) {
+					return false
+				}
+			}
+			if !OnlyAssigns(x.Else) {
+				return false
+			}
+		case For:
+			if !OnlyAssigns(x.Body) || !OnlyAssigns(x.Else) {
+				return false
+			}
+		default:
+			return false
+		}
+	}
+	return true
 }
 
 func intPow(a, b int64) int64 {
